@@ -379,9 +379,79 @@ def selector(F):
                         r.inst(iid, b.file_line(), "violation", got=sorted(got))
                         r.fail(iid, b.file_line(), "get_or_compute_derivative combines %s when ideal=%s residual=%s (expected %s)" % (
                             sorted(got), "Some" if ci == "1" else "None", "Some" if cr == "1" else "None", sorted(exp)))
-    r.floor("selector obligations", len(r.instances), 9)
+    # --- callers of State::contributions(ideal_gas, residual, selector): the first argument must not contain a residual
+    #     derivative, the second must be one
+    ncall = 0
+    for b in F.bodies:
+        defs = None
+        for bi, t in b.calls():
+            if not callee(t)[0].endswith("state::State<E>>::contributions") or len(t["args"]) != 3:
+                continue
+            defs = defs or Defs(b)
+            ncall += 1
+            names = []
+            for a in t["args"][:2]:
+                names.append(_callees_behind(F, b, defs, a))
+            owner = b.path.split("::")[-2 if b.is_closure() else -1] if "::" in b.path else b.path
+            iid = "selector|caller|%s" % (b.path.split("::{closure")[0].split("::")[-1])
+            res0 = any(n.startswith("get_or_compute_derivative_residual") or n.startswith("residual_") for n in names[0])
+            res1 = any(n.startswith("get_or_compute_derivative_residual") or n.startswith("residual_") for n in names[1])
+            if not res0 and res1:
+                r.inst(iid, t["span"], "ok", ideal_from=sorted(names[0])[:6], residual_from=sorted(names[1])[:6])
+            else:
+                r.inst(iid, t["span"], "violation")
+                r.fail("%s|parts" % iid, t["span"],
+                       "%s passes to State::contributions(ideal_gas, residual, ..) %s: Total is no longer ideal gas + residual "
+                       "and the single parts are mislabelled" % (
+                           b.path, "a residual derivative as the ideal-gas part" if res0 else "no residual derivative as the residual part"))
+    r.floor("callers of State::contributions", ncall, 6)
+    r.floor("selector obligations", len(r.instances), 15)
     r.exhaustive = True
     return r
+
+
+def _callees_behind(F, body, defs, op, limit=600):
+    """names of all functions whose results flow (through any call, aggregate, closure body) into an operand"""
+    names = set()
+    if op.get("k") not in ("copy", "move"):
+        return names
+    work = [op["place"]["l"]]
+    seen = set()
+    while work and len(seen) < limit:
+        l = work.pop()
+        if l in seen:
+            continue
+        seen.add(l)
+        for d in defs.of(l):
+            if d[0] == "call":
+                t = d[2]
+                names.add(str(callee(t)[2]))
+                for a in t["args"]:
+                    if a.get("k") in ("copy", "move"):
+                        work.append(a["place"]["l"])
+            else:
+                rv = d[4]
+                k = rv["k"]
+                ops = []
+                if k in ("use", "cast", "repeat"):
+                    ops = [rv["op"]]
+                elif k in ("ref", "discr"):
+                    work.append(rv["place"]["l"])
+                elif k == "unop":
+                    ops = [rv["a"]]
+                elif k == "binop":
+                    ops = [rv["a"], rv["b"]]
+                elif k == "agg":
+                    ops = rv["ops"]
+                    if rv["kind"].get("t") == "closure":
+                        for cb in [F.body(rv["kind"]["def"])] + closures_recursive(F, rv["kind"]["def"]):
+                            if cb is not None:
+                                for _, t2 in cb.calls():
+                                    names.add(str(callee(t2)[2]))
+                for o in ops:
+                    if o.get("k") in ("copy", "move"):
+                        work.append(o["place"]["l"])
+    return names
 
 
 # ------------------------------------------------------------------ (d)
